@@ -15,7 +15,8 @@ from wire import enc_cat, enc_str
 AWKWARD = ['(', ')', '[', ']', '{', '}', '<', '>', '/', '\\/', '|', '&', "'", '"', ',', '.', '!', '-', '_', '--', '-LRB-', '-RRB-',
            'x)[conj]', '(<L', 'a<b', 'a>b', '<<>>', 'a(b', 'a)b', '(a', 'a)', 'it\'s', 'R&D', 'Ph.D.', '2,000', 'naïve', '彼',
            '走る', 'Ω', '%', '#1', '=', 'a=b,c=d', 'x]', '[x', 'S[dcl]', '*', '**', '?', ';', ':', '@', '~', 'T', 'L', '0', '1',
-           'the', 'cat', 'sat', 'on', 'mat', 'Mr.', 'co-op', 'a_b', '_x', '-', 'x-', '&amp;', '<b>', "''", '``']
+           'the', 'cat', 'sat', 'on', 'mat', 'Mr.', 'co-op', 'a_b', '_x', '-', 'x-', '&amp;', '<b>', "''", '``',
+           '()', '[]', '{}', ')(', '(){}', '[)', '<>', '-LRB--RRB-']
 # words and tags containing Unicode white space that is not the ASCII blank: one field of every text format
 UNISPACE = ['10\u00a0000', 'a\u3000b', 'x\u2003y', 'New\u00a0York', 'N\u00a0P']
 PLAIN = ['the', 'cat', 'sat', 'on', 'mat', 'dogs', 'run', 'fast', 'John', 'loves', 'Mary', 'and', 'quickly', 'very']
